@@ -319,6 +319,43 @@ def check_relocs(dyn, g, st, rng, what):
     return dig
 
 
+def disk_phase(cont, g, sh):
+    """The image as a file on disk, read by path; then the same path rewritten with other strings at the same offsets and read
+    again in this process, then restored: the strings of the tags are those of the bytes that are in the file now."""
+    from elftools.elf.elffile import ELFFile
+    from elftools.elf.dynamic import DynamicSegment
+    from .. import oracles
+    cname, (img, info) = next(iter(cont.items()))
+    tab = g['tab']
+    k = img.find(tab)
+    if len(tab) < 8 or k < 0 or img.count(tab) != 1 or tab.swapcase() == tab:
+        sh.count('disk_phase_not_applicable')
+        return
+    img2 = img[:k] + tab.swapcase() + img[k + len(tab):]
+    inv = {v: n for n, v in g['so'].items()}
+    with oracles.Scratch() as sc:
+        for im, swap, label in ((img, False, 'first contents'), (img2, True, 'the same path rewritten with other strings at the same offsets'),
+                                (img, False, 'the first contents restored')):
+            path = sc.write('libgen.so', im)
+            with open(path, 'rb') as f:
+                ef = ELFFile(f)
+                seg = [x for x in ef.iter_segments() if isinstance(x, DynamicSegment)][0]
+                got = []
+                for t in seg.iter_tags():
+                    for code, a in STR_TAGS.items():
+                        if hasattr(t, a):
+                            got.append((t.entry.d_val, getattr(t, a)))
+            want = []
+            for t, v in g['visible']:
+                if t in STR_TAGS:
+                    n = inv.get(v, b'') if v else b''
+                    want.append((v, (n.swapcase() if swap else n).decode('utf-8')))
+            if got != want:
+                raise Bad('file on disk read by path: strings of the dynamic tags differ from the bytes in the file (%s)' % label,
+                          got=got[:4], want=want[:4])
+    sh.count('images_read_from_disk_rewritten_in_place')
+
+
 def run_gen(idx, rng, sh):
     from elftools.elf.elffile import ELFFile
     from elftools.elf.dynamic import DynamicSection, DynamicSegment
@@ -351,6 +388,8 @@ def run_gen(idx, rng, sh):
             sy = ef.get_section_by_name('.dynsym')
             if [s.name for s in sy.iter_symbols()] != [n.decode('utf-8') for n in g['names']]:
                 raise Bad('section .dynsym enumeration')
+    if idx % 3 == 0:
+        disk_phase(cont, g, sh)
     sh.held((g['cls'], g['le'], g['machine'], g['osabi'], g['hashkind'], g['gnu_mode'] if g['hashkind'] in ('gnu', 'both') else '-',
              tuple(sorted(g['rel_tables']))), n=3)
     sh.sample({'class': g['cls'], 'machine': g['machine'], 'hash': g['hashkind'], 'gnu_table': g['gnu_mode'], 'tags': len(g['visible']),
